@@ -581,4 +581,681 @@ theorem otoCmd_isolated {regs regs' : List (OTO α)} {c : OtoCmd α} {ret : Ret 
     next => simp at hc
 
 end oto
+/-! ## ManyToMany -/
+section m2m
+variable {α : Type} [DecidableEq α]
+
+theorem mem_insertSet (a v : α) (vs : List α) : a ∈ insertSet v vs ↔ a ∈ vs ∨ a = v := by
+  unfold insertSet; split <;> simp <;> grind
+
+theorem nodup_insertSet (v : α) (vs : List α) (h : vs.Nodup) : (insertSet v vs).Nodup := by
+  unfold insertSet; split
+  · exact h
+  · rw [List.nodup_append]; refine ⟨h, by simp, ?_⟩
+    intro a ha b hb; simp at hb; subst hb; intro e; subst e; contradiction
+
+theorem insertSet_ne_nil (v : α) (vs : List α) : insertSet v vs ≠ [] := by
+  unfold insertSet; split
+  · intro h; simp_all
+  · simp
+
+theorem mem_removeElem (a v : α) (vs : List α) : a ∈ removeElem v vs ↔ a ∈ vs ∧ a ≠ v := by
+  simp [removeElem, neqB]
+
+theorem nodup_removeElem (v : α) (vs : List α) (h : vs.Nodup) : (removeElem v vs).Nodup :=
+  List.Nodup.sublist List.filter_sublist h
+
+theorem mem_unionSet (a : α) (x y : List α) : a ∈ unionSet x y ↔ a ∈ x ∨ a ∈ y := by
+  unfold unionSet
+  induction y generalizing x with
+  | nil => simp
+  | cons b r ih => simp only [List.foldl_cons, ih, mem_insertSet, List.mem_cons]; grind
+
+theorem nodup_unionSet (x y : List α) (h : x.Nodup) : (unionSet x y).Nodup := by
+  unfold unionSet
+  induction y generalizing x with
+  | nil => exact h
+  | cons b r ih => exact ih _ (nodup_insertSet _ _ h)
+
+theorem unionSet_ne_nil (x y : List α) (h : x ≠ [] ∨ y ≠ []) : unionSet x y ≠ [] := by
+  intro e
+  rcases h with h | h
+  · cases x with
+    | nil => exact h rfl
+    | cons a r => have := (mem_unionSet a (a :: r) y).2 (Or.inl (by simp)); rw [e] at this; simp at this
+  · cases y with
+    | nil => exact h rfl
+    | cons a r => have := (mem_unionSet a x (a :: r)).2 (Or.inr (by simp)); rw [e] at this; simp at this
+
+theorem toSet_eq (vs : List α) : toSet vs = unionSet [] vs := rfl
+
+theorem mem_toSet (a : α) (vs : List α) : a ∈ toSet vs ↔ a ∈ vs := by
+  rw [toSet_eq, mem_unionSet]; simp
+
+theorem nodup_toSet (vs : List α) : (toSet vs).Nodup := by
+  rw [toSet_eq]; exact nodup_unionSet _ _ (by simp)
+
+theorem getSet_put (a k : α) (vs : List α) (d : Dict α (List α)) :
+    getSet a (put k vs d) = if a = k then vs else getSet a d := by
+  unfold getSet; rw [lookup_put]; split <;> simp
+
+theorem getSet_erase (a k : α) (d : Dict α (List α)) :
+    getSet a (erase k d) = if a = k then [] else getSet a d := by
+  unfold getSet; rw [lookup_erase]; split <;> simp
+
+/-- a well-formed `dict of sets`: unique keys, no empty set, no duplicate element -/
+structure GoodDict (d : Dict α (List α)) : Prop where
+  nk : NodupKeys d
+  ne : ∀ k vs, lookup k d = some vs → vs ≠ [] ∧ vs.Nodup
+
+theorem GoodDict.nil : GoodDict ([] : Dict α (List α)) := ⟨nodupKeys_nil, by simp⟩
+
+theorem GoodDict.put {d : Dict α (List α)} (h : GoodDict d) (k : α) (vs : List α) (h1 : vs ≠ []) (h2 : vs.Nodup) :
+    GoodDict (put k vs d) := by
+  refine ⟨nodupKeys_put _ _ _ h.nk, ?_⟩
+  intro a ws
+  rw [lookup_put]
+  split
+  · intro e; injection e with e; subst e; exact ⟨h1, h2⟩
+  · exact h.ne a ws
+
+theorem GoodDict.erase {d : Dict α (List α)} (h : GoodDict d) (k : α) : GoodDict (erase k d) := by
+  refine ⟨nodupKeys_erase _ _ h.nk, ?_⟩
+  intro a ws
+  rw [lookup_erase]
+  split
+  · simp
+  · exact h.ne a ws
+
+theorem GoodDict.getSet_nodup {d : Dict α (List α)} (h : GoodDict d) (k : α) : (getSet k d).Nodup := by
+  unfold getSet
+  cases hl : lookup k d with
+  | none => simp
+  | some vs => simpa using (h.ne k vs hl).2
+
+theorem GoodDict.hasKey_iff {d : Dict α (List α)} (h : GoodDict d) (k : α) :
+    hasKey k d = true ↔ getSet k d ≠ [] := by
+  unfold hasKey getSet
+  cases hl : lookup k d with
+  | none => simp
+  | some vs => simpa using (h.ne k vs hl).1
+
+theorem GoodDict.addTo {d : Dict α (List α)} (h : GoodDict d) (k v : α) : GoodDict (addTo k v d) :=
+  h.put k _ (insertSet_ne_nil _ _) (nodup_insertSet _ _ (h.getSet_nodup k))
+
+theorem mem_getSet_addTo (d : Dict α (List α)) (k v a x : α) :
+    x ∈ getSet a (addTo k v d) ↔ x ∈ getSet a d ∨ (a = k ∧ x = v) := by
+  unfold addTo; rw [getSet_put]; split
+  · next e => subst e; rw [mem_insertSet]; grind
+  · grind
+
+theorem GoodDict.removeFrom {d : Dict α (List α)} (h : GoodDict d) (k v : α) : GoodDict (removeFrom k v d) := by
+  unfold C17.removeFrom; split
+  · exact h.erase k
+  · next hne => exact h.put k _ hne (nodup_removeElem _ _ (h.getSet_nodup k))
+
+theorem mem_getSet_removeFrom (d : Dict α (List α)) (k v a x : α) :
+    x ∈ getSet a (removeFrom k v d) ↔ x ∈ getSet a d ∧ ¬ (a = k ∧ x = v) := by
+  unfold removeFrom; split
+  · next he =>
+    rw [getSet_erase]; split
+    · next e =>
+      subst e
+      have : ¬ x ∈ removeElem v (getSet a d) := by rw [he]; simp
+      rw [mem_removeElem] at this
+      simp; grind
+    · grind
+  · rw [getSet_put]; split
+    · next e => subst e; rw [mem_removeElem]; grind
+    · grind
+
+/-- the invariant: two well-formed dicts of sets holding the same pairs, transposed -/
+structure M2M.WF (s : M2M α) : Prop where
+  gd : GoodDict s.data
+  gi : GoodDict s.inv
+  transpose : ∀ k v, v ∈ getSet k s.data ↔ k ∈ getSet v s.inv
+
+theorem M2M.WF.empty : (M2M.empty : M2M α).WF := ⟨GoodDict.nil, GoodDict.nil, by simp [M2M.empty, getSet]⟩
+
+theorem M2M.WF.flip {s : M2M α} (h : s.WF) : s.flip.WF := ⟨h.gi, h.gd, fun k v => (h.transpose v k).symm⟩
+
+theorem M2M.WF.side {s : M2M α} (h : s.WF) (b : Bool) : (s.side b).WF := by
+  cases b <;> simp [M2M.side] <;> first | exact h | exact h.flip
+
+theorem M2M.WF.add {s : M2M α} (h : s.WF) (k v : α) : (s.add k v).WF := by
+  refine ⟨h.gd.addTo k v, h.gi.addTo v k, ?_⟩
+  intro a b
+  show b ∈ getSet a (addTo k v s.data) ↔ a ∈ getSet b (addTo v k s.inv)
+  rw [mem_getSet_addTo, mem_getSet_addTo, h.transpose]; grind
+
+theorem M2M.WF.removeRaw {s : M2M α} (h : s.WF) (k v : α) : (s.removeRaw k v).WF := by
+  refine ⟨h.gd.removeFrom k v, h.gi.removeFrom v k, ?_⟩
+  intro a b
+  show b ∈ getSet a (removeFrom k v s.data) ↔ a ∈ getSet b (removeFrom v k s.inv)
+  rw [mem_getSet_removeFrom, mem_getSet_removeFrom, h.transpose]; grind
+
+theorem M2M.WF.foldAdd {s : M2M α} (h : s.WF) (k : α) (l : List α) :
+    (l.foldl (fun s v => s.add k v) s).WF := by
+  induction l generalizing s with
+  | nil => exact h
+  | cons v r ih => exact ih (h.add k v)
+
+theorem M2M.foldAdd_data (s : M2M α) (k : α) (l : List α) (a x : α) :
+    x ∈ getSet a (l.foldl (fun s v => s.add k v) s).data ↔ x ∈ getSet a s.data ∨ (a = k ∧ x ∈ l) := by
+  induction l generalizing s with
+  | nil => simp
+  | cons v r ih =>
+    simp only [List.foldl_cons, ih, List.mem_cons]
+    show x ∈ getSet a (addTo k v s.data) ∨ _ ↔ _
+    rw [mem_getSet_addTo]; grind
+
+theorem M2M.WF.foldRemove {s : M2M α} (h : s.WF) (k : α) (l : List α) :
+    (l.foldl (fun s v => s.removeRaw k v) s).WF := by
+  induction l generalizing s with
+  | nil => exact h
+  | cons v r ih => exact ih (h.removeRaw k v)
+
+theorem M2M.foldRemove_data (s : M2M α) (k : α) (l : List α) (a x : α) :
+    x ∈ getSet a (l.foldl (fun s v => s.removeRaw k v) s).data ↔ x ∈ getSet a s.data ∧ ¬ (a = k ∧ x ∈ l) := by
+  induction l generalizing s with
+  | nil => simp
+  | cons v r ih =>
+    simp only [List.foldl_cons, ih, List.mem_cons]
+    show x ∈ getSet a (removeFrom k v s.data) ∧ _ ↔ _
+    rw [mem_getSet_removeFrom]; grind
+
+theorem mem_filter_notin (x : α) (l m : List α) :
+    x ∈ l.filter (fun v => !m.contains v) ↔ x ∈ l ∧ x ∉ m := by
+  simp [List.mem_filter]
+
+theorem M2M.WF.setitem {s : M2M α} (h : s.WF) (k : α) (vals : List α) : (s.setitem k vals).WF := by
+  unfold M2M.setitem
+  split
+  · exact (h.foldRemove k _).foldAdd k _
+  · exact h.foldAdd k _
+
+/-- `x[k] = vals`: afterwards key `k` holds exactly `vals`, every other key is untouched -/
+theorem M2M.setitem_data {s : M2M α} (h : s.WF) (k : α) (vals : List α) (a x : α) :
+    x ∈ getSet a (s.setitem k vals).data ↔ if a = k then x ∈ vals else x ∈ getSet a s.data := by
+  unfold M2M.setitem
+  split
+  · rw [M2M.foldAdd_data, M2M.foldRemove_data, mem_filter_notin, mem_filter_notin, mem_toSet]
+    grind
+  · next hk =>
+    rw [M2M.foldAdd_data, mem_toSet]
+    have : getSet k s.data = [] := by
+      have := (h.gd.hasKey_iff k); grind
+    grind
+
+theorem foldRemoveFrom_good {d : Dict α (List α)} (h : GoodDict d) (k : α) (l : List α) :
+    GoodDict (l.foldl (fun i v => removeFrom v k i) d) := by
+  induction l generalizing d with
+  | nil => exact h
+  | cons v r ih => exact ih (h.removeFrom v k)
+
+theorem foldRemoveFrom_mem (d : Dict α (List α)) (k : α) (l : List α) (b y : α) :
+    y ∈ getSet b (l.foldl (fun i v => removeFrom v k i) d) ↔ y ∈ getSet b d ∧ ¬ (b ∈ l ∧ y = k) := by
+  induction l generalizing d with
+  | nil => simp
+  | cons v r ih =>
+    simp only [List.foldl_cons, ih, List.mem_cons, mem_getSet_removeFrom]; grind
+
+theorem M2M.WF.delitem {s : M2M α} (h : s.WF) (k : α) : (s.delitem k).1.WF := by
+  unfold M2M.delitem
+  split
+  · refine ⟨h.gd.erase k, foldRemoveFrom_good h.gi k _, ?_⟩
+    intro a b
+    show b ∈ getSet a (erase k s.data) ↔ a ∈ getSet b (List.foldl _ s.inv (getSet k s.data))
+    rw [foldRemoveFrom_mem, getSet_erase, ← h.transpose]
+    split
+    · next e => subst e; simp
+    · grind
+  · exact h
+
+theorem M2M.WF.remove {s : M2M α} (h : s.WF) (k v : α) : (s.remove k v).1.WF := by
+  unfold M2M.remove; split
+  · exact h.removeRaw k v
+  · exact h
+
+theorem M2M.WF.updatePairs {s : M2M α} (h : s.WF) (ps : List (α × α)) : (s.updatePairs ps).WF := by
+  unfold M2M.updatePairs
+  induction ps generalizing s with
+  | nil => exact h
+  | cons p r ih => exact ih (h.add p.1 p.2)
+
+/-! merging another instance -/
+
+theorem mergeKey_eq (k : α) (vs : List α) (d : Dict α (List α)) :
+    mergeKey k vs d = put k (if hasKey k d then unionSet (getSet k d) vs else toSet vs) d := by
+  unfold mergeKey
+  split
+  · rfl
+  · next hk =>
+    rw [put_of_not_mem]
+    rw [← lookup_none_iff]
+    unfold hasKey at hk
+    cases hl : lookup k d <;> simp_all
+
+theorem GoodDict.mergeKey {d : Dict α (List α)} (h : GoodDict d) (k : α) (vs : List α) (hv : vs ≠ []) :
+    GoodDict (mergeKey k vs d) := by
+  rw [mergeKey_eq]
+  split
+  · exact h.put k _ (unionSet_ne_nil _ _ (Or.inr hv)) (nodup_unionSet _ _ (h.getSet_nodup k))
+  · exact h.put k _ (by rw [toSet_eq]; exact unionSet_ne_nil _ _ (Or.inr hv)) (nodup_toSet _)
+
+theorem mem_getSet_mergeKey {d : Dict α (List α)} (k : α) (vs : List α) (a x : α) :
+    x ∈ getSet a (mergeKey k vs d) ↔ x ∈ getSet a d ∨ (a = k ∧ x ∈ vs) := by
+  rw [mergeKey_eq, getSet_put]
+  split
+  · next e =>
+    subst e
+    split
+    · rw [mem_unionSet]; grind
+    · next hk =>
+      rw [mem_toSet]
+      have : getSet a d = [] := by
+        unfold hasKey at hk; unfold getSet
+        cases hl : lookup a d <;> simp_all
+      rw [this]; simp
+  · grind
+
+theorem foldMerge_good {d : Dict α (List α)} (h : GoodDict d) (l : Dict α (List α)) (hl : ∀ p ∈ l, p.2 ≠ []) :
+    GoodDict (l.foldl (fun d p => mergeKey p.1 p.2 d) d) := by
+  induction l generalizing d with
+  | nil => exact h
+  | cons p r ih =>
+    exact ih (h.mergeKey p.1 p.2 (hl p (by simp))) (fun q hq => hl q (List.mem_cons_of_mem _ hq))
+
+theorem foldMerge_mem (d l : Dict α (List α)) (a x : α) :
+    x ∈ getSet a (l.foldl (fun d p => mergeKey p.1 p.2 d) d) ↔
+      x ∈ getSet a d ∨ ∃ p ∈ l, p.1 = a ∧ x ∈ p.2 := by
+  induction l generalizing d with
+  | nil => simp
+  | cons p r ih =>
+    simp only [List.foldl_cons, ih, mem_getSet_mergeKey, List.mem_cons]
+    constructor
+    · rintro ((h | ⟨h1, h2⟩) | ⟨q, hq, h1, h2⟩)
+      · exact Or.inl h
+      · exact Or.inr ⟨p, Or.inl rfl, h1.symm, h2⟩
+      · exact Or.inr ⟨q, Or.inr hq, h1, h2⟩
+    · rintro (h | ⟨q, hq | hq, h1, h2⟩)
+      · exact Or.inl (Or.inl h)
+      · subst hq; exact Or.inl (Or.inr ⟨h1.symm, h2⟩)
+      · exact Or.inr ⟨q, hq, h1, h2⟩
+
+theorem GoodDict.exists_iff {l : Dict α (List α)} (h : GoodDict l) (a x : α) :
+    (∃ p ∈ l, p.1 = a ∧ x ∈ p.2) ↔ x ∈ getSet a l := by
+  unfold getSet
+  constructor
+  · rintro ⟨⟨k, vs⟩, hp, h1, h2⟩
+    simp only at h1 h2; subst h1
+    rw [(mem_iff_lookup _ h.nk k vs).1 hp]; simpa using h2
+  · intro hx
+    cases hl : lookup a l with
+    | none => rw [hl] at hx; simp at hx
+    | some vs =>
+      rw [hl] at hx
+      exact ⟨(a, vs), (mem_iff_lookup _ h.nk a vs).2 hl, rfl, by simpa using hx⟩
+
+theorem GoodDict.ne_of_mem {l : Dict α (List α)} (h : GoodDict l) : ∀ p ∈ l, p.2 ≠ [] := by
+  intro p hp
+  exact (h.ne p.1 p.2 ((mem_iff_lookup _ h.nk p.1 p.2).1 hp)).1
+
+theorem M2M.WF.updateFrom {s o : M2M α} (h : s.WF) (ho : o.WF) : (s.updateFrom o).WF := by
+  refine ⟨foldMerge_good h.gd _ ho.gd.ne_of_mem, foldMerge_good h.gi _ ho.gi.ne_of_mem, ?_⟩
+  intro a b
+  show b ∈ getSet a (List.foldl _ s.data o.data) ↔ a ∈ getSet b (List.foldl _ s.inv o.inv)
+  rw [foldMerge_mem, foldMerge_mem, ho.gd.exists_iff, ho.gi.exists_iff, h.transpose, ho.transpose]
+
+/-- `x.update(other)`: afterwards `x` holds the union of the two relations -/
+theorem M2M.updateFrom_data {s o : M2M α} (ho : o.WF) (a x : α) :
+    x ∈ getSet a (s.updateFrom o).data ↔ x ∈ getSet a s.data ∨ x ∈ getSet a o.data := by
+  show x ∈ getSet a (List.foldl _ s.data o.data) ↔ _
+  rw [foldMerge_mem, ho.gd.exists_iff]
+
+/-! replace -/
+
+theorem hasKey_put_same (v : α) (ws : List α) (d : Dict α (List α)) (b : α) (h : hasKey v d = true) :
+    hasKey b (put v ws d) = hasKey b d := by
+  unfold hasKey at *
+  rw [lookup_put]; split
+  · next e => subst e; simp [h]
+  · rfl
+
+theorem hasKey_renameIn (v k nk : α) (d : Dict α (List α)) (b : α) :
+    hasKey b (renameIn v k nk d) = hasKey b d := by
+  unfold renameIn; split
+  · next h => exact hasKey_put_same _ _ _ _ h
+  · rfl
+
+theorem GoodDict.renameIn {d : Dict α (List α)} (h : GoodDict d) (v k nk : α) : GoodDict (renameIn v k nk d) := by
+  unfold C17.renameIn; split
+  · exact h.put v _ (insertSet_ne_nil _ _) (nodup_insertSet _ _ (nodup_removeElem _ _ (h.getSet_nodup v)))
+  · exact h
+
+theorem mem_getSet_renameIn (d : Dict α (List α)) (v k nk b y : α) :
+    y ∈ getSet b (renameIn v k nk d) ↔
+      if b = v ∧ hasKey v d = true then (y = nk ∨ (y ∈ getSet b d ∧ y ≠ k)) else y ∈ getSet b d := by
+  unfold renameIn
+  by_cases hk : hasKey v d = true
+  · rw [if_pos hk, getSet_put]
+    by_cases e : b = v
+    · subst e; simp only [if_true, mem_insertSet, mem_removeElem, hk, and_self]; grind
+    · simp [e]
+  · rw [if_neg hk]; simp [hk]
+
+theorem foldRename_good {d : Dict α (List α)} (h : GoodDict d) (k nk : α) (l : List α) :
+    GoodDict (l.foldl (fun i v => renameIn v k nk i) d) := by
+  induction l generalizing d with
+  | nil => exact h
+  | cons v r ih => exact ih (h.renameIn v k nk)
+
+theorem foldRename_mem (d : Dict α (List α)) (k nk : α) (l : List α) (b y : α) :
+    y ∈ getSet b (l.foldl (fun i v => renameIn v k nk i) d) ↔
+      if b ∈ l ∧ hasKey b d = true then (y = nk ∨ (y ∈ getSet b d ∧ y ≠ k)) else y ∈ getSet b d := by
+  induction l generalizing d with
+  | nil => simp
+  | cons v r ih =>
+    simp only [List.foldl_cons, ih, hasKey_renameIn, mem_getSet_renameIn, List.mem_cons]
+    grind
+
+theorem M2M.WF.replace {s : M2M α} (h : s.WF) (k nk : α) : (s.replace k nk).WF := by
+  unfold M2M.replace
+  split
+  · next hk =>
+    have hne : getSet k s.data ≠ [] := (h.gd.hasKey_iff k).1 hk
+    refine ⟨(h.gd.erase k).mergeKey nk _ hne, foldRename_good h.gi k nk _, ?_⟩
+    intro a b
+    show b ∈ getSet a (mergeKey nk (getSet k s.data) (erase k s.data)) ↔
+      a ∈ getSet b (List.foldl _ s.inv (getSet k s.data))
+    rw [mem_getSet_mergeKey, getSet_erase, foldRename_mem]
+    have ht := h.transpose
+    have hb : b ∈ getSet k s.data → hasKey b s.inv = true := by
+      intro hb
+      rw [h.gi.hasKey_iff]
+      intro e
+      have := (ht k b).1 hb
+      rw [e] at this; simp at this
+    by_cases hbk : b ∈ getSet k s.data
+    · have hc : b ∈ getSet k s.data ∧ hasKey b s.inv = true := ⟨hbk, hb hbk⟩
+      rw [if_pos hc, ← ht]
+      grind
+    · have hc : ¬ (b ∈ getSet k s.data ∧ hasKey b s.inv = true) := fun hc => hbk hc.1
+      rw [if_neg hc, ← ht]
+      grind
+  · exact h
+
+/-- `replace(k, nk)`: every pair `(k, v)` becomes `(nk, v)` (merging into an existing `nk`) -/
+theorem M2M.replace_data {s : M2M α} (h : s.WF) (k nk a x : α) :
+    x ∈ getSet a (s.replace k nk).data ↔
+      (a ≠ k ∧ x ∈ getSet a s.data) ∨ (a = nk ∧ x ∈ getSet k s.data) := by
+  unfold M2M.replace
+  split
+  · show x ∈ getSet a (mergeKey nk (getSet k s.data) (erase k s.data)) ↔ _
+    rw [mem_getSet_mergeKey, getSet_erase]
+    by_cases e : a = k
+    · subst e; simp
+    · simp [e]
+  · next hk =>
+    have : getSet k s.data = [] := by
+      have := h.gd.hasKey_iff k; grind
+    rw [this]; simp
+    intro hx e; subst e; rw [this] at hx; simp at hx
+
+theorem M2M.WF.step {s : M2M α} (h : s.WF) (op : M2MOp α) : (s.step op).1.WF := by
+  cases op with
+  | add k v => exact h.add k v
+  | remove k v => exact h.remove k v
+  | setitem k vals => exact h.setitem k vals
+  | delitem k => exact h.delitem k
+  | update ps => exact h.updatePairs ps
+  | replace k nk => exact h.replace k nk
+
+theorem M2M.WF.stepSide {s : M2M α} (h : s.WF) (side : Bool) (op : M2MOp α) : (s.stepSide side op).1.WF := by
+  unfold M2M.stepSide
+  cases side with
+  | false => exact h.step op
+  | true => exact (h.flip.step op).flip
+
+/-! register file -/
+
+def AllWFm (regs : List (M2M α)) : Prop := ∀ s ∈ regs, s.WF
+
+theorem AllWFm.append {regs : List (M2M α)} (h : AllWFm regs) {s : M2M α} (hs : s.WF) : AllWFm (regs ++ [s]) := by
+  intro x hx
+  simp only [List.mem_append, List.mem_singleton] at hx
+  rcases hx with hx | hx
+  · exact h x hx
+  · exact hx ▸ hs
+
+theorem AllWFm.set {regs : List (M2M α)} (h : AllWFm regs) (r : Nat) {s : M2M α} (hs : s.WF) :
+    AllWFm (regs.set r s) := by
+  intro x hx
+  rcases List.mem_or_eq_of_mem_set hx with hx | hx
+  · exact h x hx
+  · exact hx ▸ hs
+
+theorem AllWFm.get {regs : List (M2M α)} (h : AllWFm regs) {r : Nat} {s : M2M α} (hr : regs[r]? = some s) : s.WF :=
+  h s (List.mem_of_getElem? hr)
+
+theorem m2mCmd_wf {regs regs' : List (M2M α)} {c : M2MCmd α} {ret : Ret α}
+    (h : AllWFm regs) (hc : m2mCmd regs c = some (regs', ret)) : AllWFm regs' := by
+  cases c with
+  | new ps =>
+    simp only [m2mCmd] at hc
+    injection hc with hc; injection hc with hc _; subst hc
+    exact h.append (M2M.WF.empty.updatePairs ps)
+  | newFrom r side =>
+    simp only [m2mCmd, Option.map_eq_some_iff] at hc
+    obtain ⟨o, ho, he⟩ := hc
+    injection he with he _; subst he
+    exact h.append (M2M.WF.empty.updateFrom ((h.get ho).side side))
+  | op r side op =>
+    simp only [m2mCmd, Option.map_eq_some_iff] at hc
+    obtain ⟨s, hs, he⟩ := hc
+    injection he with he _; subst he
+    exact h.set r ((h.get hs).stepSide side op)
+  | updateFrom r side r2 side2 =>
+    simp only [m2mCmd] at hc
+    split at hc
+    next s o hs ho =>
+      injection hc with hc; injection hc with hc _; subst hc
+      exact h.set r ((((h.get hs).side side).updateFrom ((h.get ho).side side2)).side side)
+    next => simp at hc
+
+theorem m2mRun_wf {regs regs' : List (M2M α)} (cs : List (M2MCmd α))
+    (h : AllWFm regs) (hr : m2mRun regs cs = some regs') : AllWFm regs' := by
+  induction cs generalizing regs with
+  | nil => simp only [m2mRun] at hr; injection hr with hr; exact hr ▸ h
+  | cons c cs ih =>
+    simp only [m2mRun] at hr
+    split at hr
+    next r1 ret hc => exact ih (m2mCmd_wf h hc) hr
+    next => simp at hr
+
+theorem m2mCmd_isolated {regs regs' : List (M2M α)} {c : M2MCmd α} {ret : Ret α}
+    (hc : m2mCmd regs c = some (regs', ret)) (j : Nat) (hj : j < regs.length)
+    (ht : ∀ r side op, c = .op r side op → j ≠ r)
+    (ht2 : ∀ r side r2 side2, c = .updateFrom r side r2 side2 → j ≠ r) :
+    regs'[j]? = regs[j]? := by
+  cases c with
+  | new ps =>
+    simp only [m2mCmd] at hc
+    injection hc with hc; injection hc with hc _; subst hc
+    simp [List.getElem?_append, hj]
+  | newFrom r side =>
+    simp only [m2mCmd, Option.map_eq_some_iff] at hc
+    obtain ⟨o, ho, he⟩ := hc
+    injection he with he _; subst he
+    simp [List.getElem?_append, hj]
+  | op r side op =>
+    simp only [m2mCmd, Option.map_eq_some_iff] at hc
+    obtain ⟨s, hs, he⟩ := hc
+    injection he with he _; subst he
+    have := ht r side op rfl
+    simp [List.getElem?_set, Ne.symm this]
+  | updateFrom r side r2 side2 =>
+    simp only [m2mCmd] at hc
+    split at hc
+    next s o hs ho =>
+      injection hc with hc; injection hc with hc _; subst hc
+      have := ht2 r side r2 side2 rfl
+      simp [List.getElem?_set, Ne.symm this]
+    next => simp at hc
+
+end m2m
+/-! ## FrozenDict -/
+
+theorem pairLe_iff (a b : Nat × Nat) : pairLe a b = true ↔ a.1 < b.1 ∨ (a.1 = b.1 ∧ a.2 ≤ b.2) := by
+  simp [pairLe]
+
+theorem pairLe_total (a b : Nat × Nat) : pairLe a b = true ∨ pairLe b a = true := by
+  rw [pairLe_iff, pairLe_iff]; omega
+
+theorem pairLe_antisymm (a b : Nat × Nat) (h1 : pairLe a b = true) (h2 : pairLe b a = true) : a = b := by
+  rw [pairLe_iff] at h1 h2; apply Prod.ext <;> omega
+
+theorem pairLe_trans (a b c : Nat × Nat) (h1 : pairLe a b = true) (h2 : pairLe b c = true) : pairLe a c = true := by
+  rw [pairLe_iff] at *; omega
+
+theorem insSorted_comm (x y : Nat × Nat) (c : List (Nat × Nat)) :
+    insSorted x (insSorted y c) = insSorted y (insSorted x c) := by
+  induction c with
+  | nil =>
+    simp only [insSorted]
+    have := pairLe_total x y
+    have := pairLe_antisymm x y
+    grind
+  | cons z c ih =>
+    have := pairLe_total x y
+    have := pairLe_antisymm x y
+    have := pairLe_trans x y z
+    have := pairLe_trans y x z
+    simp only [insSorted]
+    grind [insSorted]
+
+theorem canon_perm (l₁ l₂ : List (Nat × Nat)) (h : l₁.Perm l₂) : canon l₁ = canon l₂ := by
+  induction h with
+  | nil => rfl
+  | cons x _ ih => simp only [canon, List.foldr_cons] at ih ⊢; rw [ih]
+  | swap x y l => simp only [canon, List.foldr_cons]; exact insSorted_comm y x _
+  | trans _ _ ih1 ih2 => exact ih1.trans ih2
+
+/-- pigeonhole: a duplicate-free list contained in a list of the same length fills it -/
+theorem subset_of_nodup_length {β : Type} [DecidableEq β] (a b : List β) (ha : a.Nodup)
+    (hs : ∀ x ∈ a, x ∈ b) (hl : b.length ≤ a.length) : ∀ y ∈ b, y ∈ a := by
+  induction a generalizing b with
+  | nil =>
+    intro y hy
+    cases b with
+    | nil => simp at hy
+    | cons _ _ => simp at hl
+  | cons x r ih =>
+    simp only [List.nodup_cons] at ha
+    have hx : x ∈ b := hs x (by simp)
+    have hlen : (b.erase x).length = b.length - 1 := List.length_erase_of_mem hx
+    have hb1 : 1 ≤ b.length := List.length_pos_of_mem hx
+    have hsub : ∀ z ∈ r, z ∈ b.erase x := by
+      intro z hz
+      have hzx : z ≠ x := fun e => ha.1 (e ▸ hz)
+      exact (List.mem_erase_of_ne hzx).2 (hs z (List.mem_cons_of_mem _ hz))
+    have := ih (b.erase x) ha.2 hsub (by simp only [List.length_cons] at hl; omega)
+    intro y hy
+    by_cases e : y = x
+    · simp [e]
+    · exact List.mem_cons_of_mem _ (this y ((List.mem_erase_of_ne e).2 hy))
+
+theorem dictEq_perm (a b : Dict Nat FVal) (ha : NodupKeys a) (hb : NodupKeys b) (h : dictEq a b = true) :
+    a.Perm b := by
+  simp only [dictEq, Bool.and_eq_true, beq_iff_eq, List.all_eq_true] at h
+  obtain ⟨hlen, hall⟩ := h
+  have hs : ∀ p ∈ a, p ∈ b := by
+    intro p hp
+    have := hall p hp
+    exact (mem_iff_lookup b hb p.1 p.2).2 this
+  have hna := nodup_of_nodup_map Prod.fst a ha
+  have hnb := nodup_of_nodup_map Prod.fst b hb
+  rw [List.perm_ext_iff_of_nodup hna hnb]
+  intro p
+  exact ⟨hs p, subset_of_nodup_length a b hna hs (by omega) p⟩
+
+/-- equal FrozenDicts hash equal, whatever the insertion order (incl. both failing alike) -/
+theorem hashOf_eq_of_dictEq (a b : Dict Nat FVal) (ha : NodupKeys a) (hb : NodupKeys b)
+    (h : dictEq a b = true) : hashOf a = hashOf b := by
+  have hp := dictEq_perm a b ha hb h
+  unfold hashOf
+  rw [hp.all_eq, canon_perm _ _ (hp.map _)]
+
+theorem hashOf_none_iff (d : Dict Nat FVal) : hashOf d = none ↔ ∃ p ∈ d, p.2.hashable = false := by
+  unfold hashOf
+  split
+  · next h =>
+    simp only [List.all_eq_true] at h
+    simp only [reduceCtorEq, false_iff, not_exists, not_and, Bool.not_eq_false]
+    exact h
+  · next h =>
+    simp only [true_iff]
+    have h2 : d.all (fun p => p.2.hashable) = false := by simpa using h
+    rw [List.all_eq_false] at h2
+    obtain ⟨p, hp, hh⟩ := h2
+    exact ⟨p, hp, by simpa using hh⟩
+
+theorem dictEq_refl (d : Dict Nat FVal) (h : NodupKeys d) : dictEq d d = true := by
+  simp only [dictEq, Bool.and_eq_true, beq_iff_eq, List.all_eq_true, true_and]
+  intro p hp
+  exact (mem_iff_lookup d h p.1 p.2).1 hp
+
+theorem FD.ofPairs_nodup (ps : List (Nat × FVal)) : NodupKeys (FD.ofPairs ps).items :=
+  putAll_nodup _ _ nodupKeys_nil
+
+theorem FD.rebuild_items (s : FD) (h : NodupKeys s.items) : s.rebuild.items = s.items := by
+  have := putAll_of_nodup ([] : Dict Nat FVal) s.items (by simpa using h)
+  simpa [FD.rebuild, FD.ofPairs] using this
+
+/-- a mutator call raises TypeError and leaves the object as it was (for the blocked set regenerated
+    from the source; `decide` re-checks it on every run) -/
+theorem frozenErr_eq : frozenErr = some .TypeError := by decide
+
+theorem blocked_all : ∀ n ∈ dictMutators, Generated.frozenBlocked.contains n = true := by decide
+
+theorem Mut.name_mem (m : Mut) : m.name ∈ dictMutators := by
+  cases m <;> simp [Mut.name, dictMutators]
+
+theorem FD.mutate_blocked (s : FD) (m : Mut) : s.mutate m = (s, .err .TypeError) := by
+  unfold FD.mutate
+  rw [if_pos (blocked_all _ (Mut.name_mem m)), frozenErr_eq]
+
+/-- the `_hash` slot is unset or holds the hash of the (immutable) items -/
+def FD.CacheOk (s : FD) : Prop := s.cache = none ∨ s.cache = some (hashOf s.items)
+
+theorem FD.step_items (s : FD) (op : FdOp) : (s.step op).items = s.items := by
+  cases op with
+  | mutate m => simp [FD.step, FD.mutate_blocked]
+  | hash => simp only [FD.step, FD.hash]; split <;> rfl
+
+theorem FD.step_cacheOk (s : FD) (op : FdOp) (h : s.CacheOk) : (s.step op).CacheOk := by
+  cases op with
+  | mutate m => simpa [FD.step, FD.mutate_blocked] using h
+  | hash =>
+    simp only [FD.step, FD.hash]
+    split
+    · exact h
+    · exact Or.inr rfl
+
+theorem FD.run_items (s : FD) (ops : List FdOp) : (s.run ops).items = s.items := by
+  unfold FD.run
+  induction ops generalizing s with
+  | nil => rfl
+  | cons op r ih => simp only [List.foldl_cons]; rw [ih, FD.step_items]
+
+theorem FD.run_cacheOk (s : FD) (ops : List FdOp) (h : s.CacheOk) : (s.run ops).CacheOk := by
+  unfold FD.run
+  induction ops generalizing s with
+  | nil => exact h
+  | cons op r ih => exact ih _ (FD.step_cacheOk s op h)
+
+theorem FD.hash_of_cacheOk (s : FD) (h : s.CacheOk) : s.hash.2 = hashOf s.items := by
+  unfold FD.hash
+  rcases h with h | h <;> simp [h]
+
 end C17
